@@ -115,6 +115,29 @@ std::string in_place_checks(const Units &src, unsigned sel, long &calls) {
                 return std::string(form < 2 ? "s.set(s.c_str()+" : "s.set(string_view(s.c_str()+") + verif::unum(off) + (form < 2 ? ", " : ", ") + verif::unum(n - off) + (form < 2 ? ", " : "), ") + conv::mode_name((ref::Mode)m) +
                        ") on a string holding these " + verif::unum(n) + " bytes: " + why;
         }
+    // appending the text to a receiver that holds bytes which were never validated (a lead byte at its end, an FF in the middle): what is
+    // validated is the appended text as it stands - it is accepted or rejected exactly as when it is converted on its own, and on success
+    // the receiver's bytes are followed by the converted text
+    {
+        verif::Exact<char> z(bytes.data(), n, true);
+        const size_t zl = strlen(z.data());
+        static const char *const recv[3] = {"caf\xC3", "a\xFFz", "\xE2\x82"};
+        for (int ri = 0; ri < 3; ri++) {
+            const std::string rv = recv[ri];
+            int k0 = 0, k1 = 0, k2 = 0; std::string alone, got1, got2;
+            try { ST::string t(z.data()); alone.assign(t.c_str(), t.size()); } catch (const ST::unicode_error &) { k0 = 1; }
+            try { ST::string r1 = ST::string::from_validated(rv.data(), rv.size()); r1 += z.data(); got1.assign(r1.c_str(), r1.size()); } catch (const ST::unicode_error &) { k1 = 1; }
+            try { ST::string r2 = ST::string::from_validated(rv.data(), rv.size()); ST::string r3 = r2 + z.data(); got2.assign(r3.c_str(), r3.size()); } catch (const ST::unicode_error &) { k2 = 1; }
+            calls += 3;
+            const char *form = nullptr; int kk = 0; const std::string *g = nullptr;
+            if (k1 != k0 || (!k0 && got1 != rv + alone)) { form = "receiver += const char*"; kk = k1; g = &got1; }
+            else if (k2 != k0 || (!k0 && got2 != rv + alone)) { form = "receiver + const char*"; kk = k2; g = &got2; }
+            if (form)
+                return std::string(form) + " with a receiver holding the never-validated bytes " + verif::hexs(rv.data(), rv.size()) + " and the text " + verif::hexs(z.data(), zl < 24 ? zl : 24) + ": " +
+                       (kk ? "throws ST::unicode_error" : "returns " + verif::hexs(g->data(), g->size() < 32 ? g->size() : 32)) + ", but the text converted on its own " +
+                       (k0 ? "is rejected (ST::unicode_error)" : "is accepted as " + verif::hexs(alone.data(), alone.size() < 24 ? alone.size() : 24));
+        }
+    }
     return std::string();
 }
 
